@@ -79,6 +79,12 @@ def check(run: Run, prog: Program, model: Model, tier: str) -> None:
                     run.violated("CONSTRAINT", construct, f.loc, f"constraint `{prop}` produces no error on any path: it is not checked",
                                  witness=f"a value violating `{prop}` is accepted")
                     continue
+                if prop == "value" and any(r.error == "ValueValidationError" and "isclose" in r.pred_key for r in rows):
+                    bad_r = next(r for r in rows if "isclose" in r.pred_key)
+                    run.violated("CONSTRAINT", construct, bad_r.site,
+                                 f"a fixed {st.name[:-6].lower()} value is compared with a tolerance (isclose); only floats have a documented tolerance",
+                                 witness="validate(schema.int(2**40), 2**40 - 1) has no errors")
+                    continue
                 if prop in REL:
                     err, xk, want = REL[prop]
                     mine = [r for r in rows if r.error == err]
@@ -150,7 +156,7 @@ def check(run: Run, prog: Program, model: Model, tier: str) -> None:
     _sibling(run, prog, model)
     _result_acc(run, prog, model)
     run.floor("CONSTRAINT", 30)
-    run.floor("TYPE-FIRST", 20)
+    run.floor("TYPE-FIRST", 14)
     run.floor("PRESENT", 40)
 
 
@@ -399,7 +405,8 @@ def _list_forms(run: Run, prog: Program, model: Model, tier: str) -> None:
         probs: List[str] = []
         seen_iter = 0
         for p in paths:
-            loops = [e for e in p.events if e.kind == "loop" and e.func == f.qualname and "enumerate(value" in e.data["iterable"].key()]
+            loops = [e for e in p.events if e.kind == "loop" and e.func == f.qualname and e.data["iterable"].key().startswith("enumerate(")
+                     and "value" in e.data["iterable"].key()]
             if not loops:
                 continue
             n = loops[-1].data["iterations"]
@@ -421,7 +428,7 @@ def _list_forms(run: Run, prog: Program, model: Model, tier: str) -> None:
             run.holds("TYPED-COVER", c, f.loc, "each of the iterated elements reaches type_schema.__accept__", nontrivial=True)
         else:
             run.undecided("TYPED-COVER", c, f.loc, "typed loop not recognised")
-    run.floor("TYPED-COVER", 2)
+    run.floor("TYPED-COVER", 1)
 
 
 def _sibling(run: Run, prog: Program, model: Model) -> None:
@@ -523,4 +530,12 @@ MUTANTS += [
     {"name": "typed list skips elements equal to an already validated one", "rule": "TYPED-COVER",
      "edits": [(V_, "            for index, elem in enumerate(value):\n                nested_path = deepcopy(path)[index]\n                res = type_schema.__accept__(self, value=elem, path=nested_path, **kwargs)\n                result.add_errors(res.get_errors())",
                 "            done = []\n            for index, elem in enumerate(value):\n                if elem in done:\n                    continue\n                nested_path = deepcopy(path)[index]\n                res = type_schema.__accept__(self, value=elem, path=nested_path, **kwargs)\n                result.add_errors(res.get_errors())\n                done.append(elem)")]},
+]
+
+MUTANTS += [
+    {"name": "relaxed marker ends the key loop (keys declared after it are skipped)", "rule": "DICT",
+     "edits": [(V_, "            if is_ellipsis(key):\n                continue\n            if key in value:\n                nested_path = deepcopy(path)[key]", "            if is_ellipsis(key):\n                break\n            if key in value:\n                nested_path = deepcopy(path)[key]")]},
+    {"name": "int values compared with isclose", "rule": "CONSTRAINT",
+     "edits": [(V_, "    def _validate_value(self, path: PathHolder, value: Any,\n                        expected_val: Any) -> Optional[ValidationError]:\n        if value != expected_val:",
+                "    def _validate_value(self, path: PathHolder, value: Any,\n                        expected_val: Any) -> Optional[ValidationError]:\n        if isinstance(value, int) and not isinstance(value, bool) and not isclose(value, expected_val):\n            return ValueValidationError(path, value, expected_val)\n        if not isinstance(value, int) and value != expected_val:")]},
 ]
